@@ -153,6 +153,19 @@ type Sweep struct {
 	Only    []int  `json:"only,omitempty"` // explicit type indices (replay/shrink/cold reference)
 	OnlyR   []int  `json:"only_r,omitempty"` // explicit reflect-created type indices (cold reference)
 	Exclude []int  `json:"exclude,omitempty"` // types that die even alone in a fresh process (filled by the driver)
+	// Alias32: placement adversary. The heap is advanced until freshly allocated
+	// run-time type descriptors get addresses whose low 32 bits fall into the
+	// address window of the binary's own type descriptors, then Reflect run-time
+	// types are created with light filler in between (their shapes depend only
+	// on Seed%4 and Reflect, so that cold references are shared between plans).
+	Alias32 bool `json:"alias32,omitempty"`
+	// OnlyName + Cross: population independence. The listed types (by package
+	// path and type text) are processed in this binary and in the binary of the
+	// build variant Cross, which defines another population of types (other
+	// addresses, another type at the top of the window); what is observed for a
+	// type must not depend on the binary it lives in.
+	OnlyName []string `json:"only_name,omitempty"`
+	Cross    string   `json:"cross,omitempty"`
 }
 
 func (p *Plan) Hash() string {
